@@ -12,6 +12,8 @@ Qed.
 Lemma image_weaken s o (K K' : rec -> Prop) d : (forall x, K' x -> K x) -> Image s o K d -> Image s o K' d.
 Proof. intros H (A & B & C). split; [exact A|split; [exact B|intros x Hx HK; apply C; [exact Hx|apply H; exact HK]]]. Qed.
 
+Definition log_of (s : st) : log := mkLog (segs_of (s_disk s)) (s_hw s) (d_ep (s_disk s)) false.
+
 Section Safety.
   Variable key_of : bytes -> option bytes.
   Variable p : params.
@@ -28,15 +30,16 @@ Section Safety.
   Definition trunc_final (s : st) (o : Z) (d : disk) : Prop :=
     exists segs c, meq d (mkDisk segs [] (d_scr (s_disk s)) (d_hw (s_disk s)) c) /\
       segs <> [] /\ (forall m, In m segs -> m_idx m = Some (m_recs m)) /\ cbound c (m_next (last segs dummy_m)) /\
-      Image s (DTrunc o) (K o) (mkDisk segs [] (d_scr (s_disk s)) (d_hw (s_disk s)) c).
+      Image s (DTrunc o) (K o) (mkDisk segs [] (d_scr (s_disk s)) (d_hw (s_disk s)) c) /\
+      mkLog (map m_seg segs) (s_hw s) c false = truncate (log_of s) o.
 
   Lemma trunc_op_seq s o : Good s ->
     seq (Image s (DTrunc o) (K o)) (at_ (s_disk s)) (trunc_effs fixed (s_disk s) o)
-        (fun d => at_ (s_disk s) d \/ trunc_final s o d).
+        (fun d => (at_ (s_disk s) d /\ truncate (log_of s) o = log_of s) \/ trunc_final s o d).
   Proof.
     intros G. destruct (find_segment (segs_of (s_disk s)) o) as [[i st]|] eqn:Hfind.
     2:{ unfold trunc_effs. rewrite Hfind.
-        apply (seq_conseq (Image s (DTrunc o) (K o)) (at_ (s_disk s)) _ (at_ (s_disk s)) _); [auto|intros d Hd; left; exact Hd|].
+        apply (seq_conseq (Image s (DTrunc o) (K o)) (at_ (s_disk s)) _ (at_ (s_disk s)) _); [auto|intros d Hd; left; split; [exact Hd|unfold truncate, log_of; cbn [l_segs]; rewrite Hfind; reflexivity]|].
         apply seq_nil. intros d Hd. apply (image_main s o (s_disk s) d); [apply meq_sym; exact Hd|apply good_image; exact G]. }
     destruct (find_segment_some _ _ _ _ Hfind) as (preS & postS & E & Hlen & Hlt & Hpre).
     unfold segs_of in E. destruct (map_split3 _ _ _ _ _ E) as (pre & t & later & Hshape & E1 & E2 & E3). subst preS st postS.
@@ -53,7 +56,10 @@ Section Safety.
       assert (Hp : forall m, In m pre -> m_idx m = Some (m_recs m)) by (intros m' Hm'; apply (g_idx _ G); rewrite Hshape; apply in_or_app; left; exact Hm').
       destruct ((m_base t =? o) && negb (Nat.eqb i 0)); [apply Hp; exact Hm|].
       apply in_app_or in Hm. destruct Hm as [Hm|[<-|[]]]; [apply Hp; exact Hm|reflexivity]. }
-    split; [exact Hne|]. split; [exact Hidx|]. split; [|exact Himg].
+    split; [exact Hne|]. split; [exact Hidx|]. split; [|split; [exact Himg|]].
+    2:{ unfold truncate, log_of. cbn [l_segs l_hw l_cache l_ro]. rewrite Hfind. rewrite <- (final_is_model s o pre t later Hshape Hlt Hpre i (eq_sym Hlen)).
+        f_equal. unfold cfin. f_equal. f_equal. rewrite <- (final_next s o pre t later Hshape i (eq_sym Hlen) Hne).
+        change dummy_seg with (m_seg dummy_m). rewrite last_map by exact Hne. reflexivity. }
     (* the index-based next offset of the last segment is its true next offset *)
     destruct (exists_last Hne) as (fl & fx & Ef). rewrite Ef, last_last in *.
     assert (Hin : In fx (final_segs o pre t i)) by (rewrite Ef; apply in_or_app; right; left; reflexivity).
@@ -112,7 +118,7 @@ Section Safety.
     - (* Truncate *)
       unfold script, exec, script. eexists. split; [reflexivity|].
       destruct (seq_from_eq _ _ _ _ (trunc_op_seq s t G)) as [Hall Hfin]. split; [exact Hall|].
-      intros s' [= <-]. split; [|cbn; lia]. destruct Hfin as [Hat|(segs & c & Hm & Hne & Hidx & Hcb & Himg)].
+      intros s' [= <-]. split; [|cbn; lia]. destruct Hfin as [[Hat _]|(segs & c & Hm & Hne & Hidx & Hcb & Himg & _)].
       + pose proof (good_meq s _ G (meq_sym _ _ Hat)) as G'. exact G'.
       + set (dF := mkDisk segs [] (d_scr (s_disk s)) (d_hw (s_disk s)) c) in *.
         assert (GF : Good (mkSt dF (s_hw s))) by (apply mid_good; [apply Himg|exact Hne|exact Hidx|reflexivity|exact Hcb]).
@@ -120,7 +126,7 @@ Section Safety.
     - (* Clean *)
       unfold script, exec, script. eexists. split; [reflexivity|].
       destruct (seq_from_eq _ _ _ _ (clean_op_seq key_of p s G ttl)) as [Hall Hfin]. split; [exact Hall|].
-      intros s' [= <-]. split; [|cbn; lia]. destruct Hfin as (segs & c & Hm & Hne & Hidx & Hcb & Himg).
+      intros s' [= <-]. split; [|cbn; lia]. destruct Hfin as (segs & c & Hm & Hne & Hidx & Hcb & Himg & _ & _).
       assert (GF : Good (mkSt (cmk s segs [] c) (s_hw s))) by (apply mid_good; [apply Himg|exact Hne|exact Hidx|reflexivity|exact Hcb]).
       apply (good_meq _ _ GF). apply meq_sym. exact Hm.
     - (* SetHighWatermark *)
@@ -200,11 +206,108 @@ Section Safety.
       - destruct (crash_recovers s o n G Hop) as (s1 & E). exists s1. split; [exact E|]. apply (crash_safe s o n s1 G Hop E). }
     destruct Hstep as (s1 & E1 & G1). rewrite E1. apply IH; [exact G1|apply Hrest; exact E1].
   Qed.
+  (* ---- completed operations are the operations of the in-memory model (C01, C08, C09) ---- *)
+  Definition model_op (l : log) (o : dop) : log :=
+    match o with
+    | DCreate => l
+    | DAppend ms => append_log (p_maxb p) false l ms
+    | DASet rs => match append_set (p_maxb p) l rs with Ok (l', _) => l' | _ => l end
+    | DTrunc t => truncate l t
+    | DClean ttl => if p_compact p then clean_compact key_of false (p_lim p) ttl l else clean (p_lim p) ttl l
+    | DSetHw h => set_hw l h
+    | DCheckpoint => l
+    | DEpoch e => new_leader_epoch l e
+    | DReopen => reopen l
+    end.
+
+  Lemma split_check s : Good s -> l_segs (check_split (p_maxb p) (log_of s)) = split_segs p (segs_of (s_disk s)) /\
+    s_next (active (check_split (p_maxb p) (log_of s))) = next_of s /\
+    l_hw (check_split (p_maxb p) (log_of s)) = s_hw s /\ l_cache (check_split (p_maxb p) (log_of s)) = d_ep (s_disk s) /\
+    l_ro (check_split (p_maxb p) (log_of s)) = false.
+  Proof.
+    intros G. destruct (good_active s G) as (pre & a & E & Ha & Hidx & Hnx & H0 & Hpre & Hbelow).
+    unfold check_split, split_segs, active, log_of, segs_of. cbn [l_segs l_hw l_cache l_ro]. rewrite E, map_app, rev_app_distr. cbn [map rev app]. rewrite last_last.
+    destruct (p_maxb p <=? s_pos (m_seg a)); cbn [l_segs l_hw l_cache l_ro].
+    - repeat split; try reflexivity. rewrite last_last. cbn. rewrite Hnx. reflexivity.
+    - repeat split; try reflexivity. rewrite last_last. rewrite Hnx. reflexivity.
+  Qed.
+
+  Lemma segs_ne s : Good s -> segs_of (s_disk s) <> [].
+  Proof. intros G. unfold segs_of. pose proof (g_ne _ G). destruct (d_segs (s_disk s)); [contradiction|discriminate]. Qed.
+
+  Lemma reopen_eq s : Good s ->
+    log_of (mkSt (recover fixed (with_hw (s_disk s) (s_hw s))) (d_hw (recover fixed (with_hw (s_disk s) (s_hw s))))) = reopen (log_of s).
+  Proof.
+    intros G.
+    pose proof (good_with_hw s (s_hw s) G ltac:(lia)) as G'. pose proof (good_mid _ G') as M. cbn [s_disk s_hw] in M.
+    destruct (mid_recover _ _ M) as (_ & _ & _ & _ & Hsegs). specialize (Hsegs (g_ne _ G)).
+    unfold reopen, log_of. cbn [s_disk s_hw l_segs l_hw l_cache]. rewrite Hsegs. change (segs_of (with_hw (s_disk s) (s_hw s))) with (segs_of (s_disk s)).
+    destruct (good_active s G) as (pre & a & E & Ha & Hidx & Hnx & H0a & _).
+    assert (Hfixall : map (fix_idx fixed) (d_segs (s_disk s)) = d_segs (s_disk s)).
+    { rewrite <- (map_id (d_segs (s_disk s))) at 2. apply map_ext_in. intros m Hm. rewrite fix_idx_fixable by (left; unfold m_fi; rewrite (g_idx _ G m Hm); reflexivity).
+      destruct m as [sg ix]. cbn [m_seg m_idx m_recs]. rewrite <- (g_idx _ G _ Hm). reflexivity. }
+    unfold recover. cbn [d_ep with_hw d_segs d_hw]. rewrite Hfixall.
+    assert (Hact : active (mkLog (segs_of (s_disk s)) (s_hw s) (d_ep (s_disk s)) false) = m_seg a).
+    { unfold active, segs_of. cbn [l_segs]. rewrite E, map_app. cbn [map]. apply last_last. }
+    assert (Hold : match d_segs (s_disk s) with [] => -1 | m :: _ => match m_fi m with [] => -1 | r :: _ => r_off r end end =
+                   oldest (mkLog (segs_of (s_disk s)) (s_hw s) (d_ep (s_disk s)) false)).
+    { unfold oldest, segs_of. cbn [l_segs]. destruct (d_segs (s_disk s)) as [|m0 mt] eqn:Eseg; [reflexivity|]. cbn [map].
+      unfold s_first, m_fi. rewrite (g_idx _ G m0 ltac:(rewrite Eseg; left; reflexivity)). reflexivity. }
+    assert (Hne : d_segs (s_disk s) <> []) by apply (g_ne _ G).
+    unfold next_of in Hnx. rewrite Ha in Hnx.
+    destruct (d_segs (s_disk s)) as [|m0 mt] eqn:Eseg; [contradiction|].
+    rewrite <- Hold. change (last (m0 :: mt) dummy_m) with (last (m0 :: mt) dummy_m).
+    assert (Hlast : last (m0 :: mt) dummy_m = a) by (rewrite <- Ha; unfold d_active; rewrite Eseg; reflexivity).
+    rewrite Hlast, Hact, Hnx. reflexivity.
+  Qed.
+
+  Theorem exec_refines s o s' : Good s -> op_ok s o -> exec key_of fixed p s o = Some s' -> log_of s' = model_op (log_of s) o.
+  Proof.
+    intros G Hok. destruct o as [|ms|rs|t|ttl|h| |e|]; cbn [op_ok] in Hok; try contradiction.
+    - (* Append *)
+      destruct Hok as [Hne Hmono].
+      destruct (write_op_seq p maxb_pos s (DAppend ms) (number (next_of s) ms) (survives s (DAppend ms)) G eq_refl (number_ne _ _ Hne) (number_sorted _ _) Hmono)
+        as (sp & Esp & Hnx & Hseq). cbn zeta in Hnx, Hseq.
+      unfold exec, script. rewrite Esp, Hnx. destruct (seq_from_eq' _ _ _ _ Hseq) as [_ (_ & _ & Hs & Hc & Hh)].
+      intros [= <-]. destruct (split_check s G) as (C1 & C2 & C3 & C4 & C5).
+      cbn [model_op]. unfold append_log, append. cbn [log_of l_ro andb]. destruct ms as [|m0 mt]; [contradiction|].
+      unfold write. rewrite C1, C2, C3, C4, C5. unfold log_of. cbn [s_disk s_hw]. rewrite Hs, Hc. reflexivity.
+    - (* AppendMessageSet *)
+      destruct Hok as (Hne & Hsort & Hmono).
+      destruct (write_op_seq p maxb_pos s (DASet rs) rs (survives s (DASet rs)) G eq_refl Hne Hsort Hmono) as (sp & Esp & Hnx & Hseq). cbn zeta in Hnx, Hseq.
+      unfold exec, script. rewrite Esp. destruct (seq_from_eq' _ _ _ _ Hseq) as [_ (_ & _ & Hs & Hc & Hh)].
+      intros [= <-]. destruct (split_check s G) as (C1 & C2 & C3 & C4 & C5).
+      cbn [model_op]. unfold append_set. destruct rs as [|r0 rt]; [contradiction|].
+      unfold write. rewrite C1, C3, C4, C5. unfold log_of. cbn [s_disk s_hw]. rewrite Hs, Hc. reflexivity.
+    - (* Truncate *)
+      unfold exec, script. destruct (seq_from_eq _ _ _ _ (trunc_op_seq s t G)) as [_ Hfin]. intros [= <-]. cbn [model_op].
+      destruct Hfin as [[(A & _ & _ & D) Et]|(segs & c & (A & _ & _ & D) & _ & _ & _ & _ & Eq)].
+      + rewrite Et. unfold log_of, segs_of. cbn [s_disk s_hw]. rewrite A, D. reflexivity.
+      + rewrite <- Eq. unfold log_of, segs_of. cbn [s_disk s_hw d_segs d_ep] in *. rewrite A, D. reflexivity.
+    - (* Clean *)
+      unfold exec, script. destruct (seq_from_eq _ _ _ _ (clean_op_seq key_of p s G ttl)) as [_ Hfin]. intros [= <-]. cbn [model_op].
+      destruct Hfin as (segs & c & (A & _ & _ & D) & _ & _ & _ & _ & Es & Ec).
+      unfold log_of at 1, segs_of. cbn [s_disk s_hw cmk d_segs d_ep] in *. rewrite A, D, Es, Ec.
+      unfold clean_target, clean_cache, clean_compact, clean, log_of. cbn [l_segs l_hw l_cache l_ro].
+      change (retain (p_lim p) ttl (segs_of (s_disk s))) with (s3 p s ttl).
+      destruct (p_compact p); [|reflexivity]. destruct (s3 p s ttl) as [|a [|b u]]; reflexivity.
+    - (* SetHighWatermark *)
+      unfold exec, script. intros [= <-]. cbn [model_op run_effs fold_left]. unfold set_hw, log_of. cbn [l_hw s_hw s_disk].
+      destruct (s_hw s <? h); reflexivity.
+    - (* checkpoint *)
+      unfold exec, script. intros [= <-]. reflexivity.
+    - (* NewLeaderEpoch *)
+      unfold exec, script. destruct (seq_from_eq' _ _ _ _ (epoch_seq s (DEpoch e) (survives s (DEpoch e)) e G)) as [_ [Hfin _]]. cbn zeta in Hfin.
+      intros [= <-]. cbn [model_op]. unfold new_leader_epoch, log_of. cbn [s_disk s_hw l_segs l_hw l_cache l_ro].
+      unfold next_of in Hfin. rewrite Hfin. cbn [with_ep d_segs d_ep segs_of].
+      destruct (good_active s G) as (pre & a & E & Ha & Hidx & Hnx & _). unfold newest, active. cbn [l_segs]. unfold segs_of at 3. rewrite E, map_app. cbn [map]. rewrite last_last.
+      unfold next_of in Hnx. rewrite Hnx. unfold segs_of. f_equal. f_equal. lia.
+    - (* Close + New *)
+      unfold exec, script. intros [= <-]. cbn [model_op]. exact (reopen_eq s G).
+  Qed.
 End Safety.
 
 (* ---- the recovered log as the in-memory model of C01 sees it ---- *)
-Definition log_of (s : st) : log := mkLog (segs_of (s_disk s)) (s_hw s) (d_ep (s_disk s)) false.
-
 Lemma good_wf s : Good s -> wf (log_of s) /\ all_recs (log_of s) = content (s_disk s).
 Proof.
   intros G. split; [split|].
